@@ -201,6 +201,9 @@ func (m *Machine) intrinsic(fn *ssa.Function, args []Value, k func(Value)) bool 
 	if strings.HasPrefix(key, "reflect.") || strings.HasPrefix(key, "(reflect.") || strings.HasPrefix(key, "(*reflect.") {
 		return m.reflectIntrinsic(key, args, k)
 	}
+	if key == "(*sync.Pool).Get" || key == "(*sync.Pool).Put" {
+		return m.poolIntrinsic(key, args, k)
+	}
 	if key == "unicode/utf8.DecodeRuneInString" {
 		str := args[0].(StrV)
 		if len(str.b) == 0 {
@@ -416,6 +419,56 @@ func (m *Machine) branchAssume(c *Term) bool {
 	}
 	m.decided = append(m.decided, 1)
 	m.assume(c)
+	return true
+}
+
+// poolIntrinsic models sync.Pool as a LIFO free list per pool (Get prefers a recycled object,
+// which is the adversarial choice for "share no state"). The pool itself is synchronised and
+// not part of any footprint; an object handed to Put is released by its owner, so the accesses
+// made before the Put happen before whatever the next owner does: its footprint marks are
+// cleared at Put time. Accesses of the old owner *after* the Put keep their marks and conflict
+// with the new owner's.
+func (m *Machine) poolIntrinsic(key string, args []Value, k func(Value)) bool {
+	pc, ok := args[0].(*Cell)
+	if !ok || pc == nil {
+		m.unsupported("sync.Pool behind a symbolic pointer")
+	}
+	if m.pools == nil {
+		m.pools = map[*Cell][]Value{}
+	}
+	if key == "(*sync.Pool).Put" {
+		x := args[1]
+		if iv, isI := x.(IfaceV); isI && iv.t != nil {
+			if c, isC := iv.v.(*Cell); isC && c != nil {
+				var clear func(c *Cell)
+				clear = func(c *Cell) {
+					c.wr, c.rd = 0, 0
+					for _, s := range c.sub {
+						clear(s)
+					}
+				}
+				clear(c)
+			}
+			m.pools[pc] = append(m.pools[pc], x)
+		}
+		k(nil)
+		return true
+	}
+	if items := m.pools[pc]; len(items) > 0 {
+		x := items[len(items)-1]
+		m.pools[pc] = items[:len(items)-1]
+		k(x)
+		return true
+	}
+	// empty pool: New must be nil (calling back into user code from here is not modelled)
+	if len(pc.sub) > 0 {
+		if nf := pc.sub[len(pc.sub)-1]; nf.v != nil {
+			if cl, isCl := nf.v.(*Closure); isCl && cl != nil {
+				m.unsupported("sync.Pool with a New function")
+			}
+		}
+	}
+	k(IfaceV{})
 	return true
 }
 
